@@ -45,6 +45,7 @@ type Op struct {
 	Tag   int    `json:"tag,omitempty"`
 	Big   bool   `json:"big,omitempty"`  // status >= 4096 bytes (two write calls)
 	Pad   int    `json:"pad,omitempty"`  // extra payload bytes
+	Len   int    `json:"len,omitempty"`  // when > 0: the JSON encoding of the status is exactly this long (4096 / 65536 boundaries, > 64 KiB)
 	Days  int    `json:"days,omitempty"` // removeold: retention days (0 = RemoveAll)
 	C     bool   `json:"c,omitempty"`    // touch: the compacted twin
 	Age   int64  `json:"age,omitempty"`  // touch: seconds before now
@@ -119,8 +120,15 @@ type Step struct {
 
 func tagOf(st *model.Status) int { t, _ := strconv.Atoi(st.Name); return t }
 
-func mkStatus(req string, tag int, big bool, pad int) *model.Status {
+func mkStatus(req string, tag int, big bool, pad int, want int) *model.Status {
 	st := &model.Status{RequestID: req, Name: strconv.Itoa(tag)}
+	if want > 0 {
+		b, _ := json.Marshal(st)
+		if want > len(b) {
+			st.Params = strings.Repeat("z", want-len(b))
+		}
+		return st
+	}
 	if big {
 		st.Params = strings.Repeat("x", 4200+pad)
 	} else if pad > 0 {
@@ -277,9 +285,8 @@ func execute(h *History, base string) bool {
 			if !open {
 				continue
 			}
-			st := mkStatus("", op.Tag, op.Big, op.Pad)
 			// the request id of the open run is not known to the op: the writer's status carries it
-			st.RequestID = curReq(h, len(h.Steps))
+			st := mkStatus(curReq(h, len(h.Steps)), op.Tag, op.Big, op.Pad, op.Len)
 			b, _ := json.Marshal(st)
 			op.Size = len(b)
 			if err := W.Write(st); err != nil {
@@ -294,7 +301,7 @@ func execute(h *History, base string) bool {
 			}
 			open = false
 		case "update":
-			st := mkStatus(op.Req, op.Tag, op.Big, op.Pad)
+			st := mkStatus(op.Req, op.Tag, op.Big, op.Pad, op.Len)
 			b, _ := json.Marshal(st)
 			op.Size = len(b)
 			if err := W.Update(op.D, op.Req, st); err != nil {
@@ -395,6 +402,9 @@ func curReq(h *History, nsteps int) string {
 
 var safeNames = []string{"/x/a.yaml", "/x/ab.yaml", "/x/a.b.yaml", "/x/a b.yaml", "/x/w_c.yaml", "/y/a.yaml", "/x/job-1.yaml", "/x/a_c.yaml"}
 var unsafeNames = []string{"/x/a[1].yaml", "/x/q*.yaml", "/x/p?.yaml", "/x/a[.yaml", "/x/n20240101.10:00:00.yaml", "/x/m29990101.10:00:00.yaml", "/x/b\\c.yaml"}
+
+// status sizes around the bufio (4096) and 64 KiB boundaries and well beyond ("arbitrary status payloads")
+var lens = []int{4095, 4096, 4097, 8192, 65535, 65536, 65537, 70000, 131100, 200000}
 
 var clocks = []string{"10:00:00.000", "10:00:00.100", "10:00:00.300", "10:00:00.700", "10:00:01.000", "10:00:01.500",
 	"10:01:00.000", "10:00:59.999", "23:59:59.900", "23:59:59.999", "00:00:00.000", "00:00:00.001", "09:59:59.999", "12:30:45.123"}
@@ -505,6 +515,9 @@ func gen(rng *vh.Rng, k int, maxops int) *History {
 			if rng.Chance(1, 12) {
 				o.Big = true
 			}
+			if rng.Chance(1, 9) {
+				o.Len = lens[rng.Below(len(lens))]
+			}
 			if rng.Chance(1, 3) {
 				o.Pad = rng.Below(4)
 			}
@@ -526,6 +539,9 @@ func gen(rng *vh.Rng, k int, maxops int) *History {
 			}
 			if rng.Chance(1, 15) {
 				o.Big = true
+			}
+			if rng.Chance(1, 10) {
+				o.Len = lens[rng.Below(len(lens))]
 			}
 			if rng.Chance(1, 3) {
 				o.Pad = rng.Below(4)
